@@ -82,14 +82,14 @@ def run(ctx):
         for si, (S, comm, prio, foreign, dist, unsorted, y, maxring, fl) in enumerate(shapes):
             trigger = False
             if mod == 'ltq' and fl == 'asan' and S >= 2:
-                # known finding: keep ONE small sanitizer run as the trigger (quick: shape index 5), the rest in the production flavour
-                if si == 5:
+                # known finding: keep the two quick sanitizer shapes as low-weight triggers, everything else in the production flavour
+                if si in (2, 5):
                     trigger = True
                 else:
                     fl = 'rel'
             rounds = max(3, per_shape_tasks // (S * 550))
             if trigger:
-                rounds = min(rounds, 6)
+                rounds = min(rounds, 9)
             exe = ctx.harness('c08_sched', fl)
             cmd = [exe, '--mode', 'conserve', '--sched', mod, '--streams', S, '--rounds', rounds, '--tasks-per-thread', 150, '--ops', 300,
                    '--comm', comm, '--prio', prio, '--foreign', foreign, '--dist', dist, '--unsorted', unsorted, '--yield', y, '--maxring', maxring,
@@ -101,13 +101,13 @@ def run(ctx):
         n, mod, fl, S, trigger, cmd = j
         what = '%s %s' % (fl, ' '.join(cmd[1:]))
         tmo = 7200 if thorough else 900
-        r = ctx.run(cmd, timeout=tmo, stall_s=120, tag='s%d' % n)
+        r = ctx.run(cmd, timeout=tmo, stall_s=300, tag='s%d' % n)
         hit = _ltq_known(ctx, r, what) if mod == 'ltq' else False
         if hit:
             return j, r, 'known'
         st = ctx.absorb(r, what)
         if st == 'stalled':      # stall rule: once more with the same input
-            r2 = ctx.run(cmd, timeout=tmo, stall_s=120, tag='s%dr' % n)
+            r2 = ctx.run(cmd, timeout=tmo, stall_s=300, tag='s%dr' % n)
             if mod == 'ltq' and _ltq_known(ctx, r2, what):
                 return j, r2, 'known'
             st2 = ctx.absorb(r2, what)
